@@ -200,6 +200,11 @@ fn text_at(g: &G, min: u8, rng: &mut Rng) -> String {
   }
 }
 
+fn ends_with_field_name(s: &str) -> bool {
+  let t = s.trim_end_matches(|c: char| c.is_ascii_alphanumeric());
+  t.len() < s.len() && t.ends_with('.')
+}
+
 fn text(g: &G, rng: &mut Rng) -> String {
   match g {
     G::Atom(s) => s.clone(),
@@ -208,7 +213,12 @@ fn text(g: &G, rng: &mut Rng) -> String {
       let lv = level(op);
       // `::` operands are unary expressions; otherwise left-associative levels
       let (lmin, rmin) = (lv, lv + 1);
-      format!("{} {op} {}", text_at(l, lmin, rng), text_at(r, rmin, rng))
+      let mut ls = text_at(l, lmin, rng);
+      // after `e.name` a `<` starts explicit type arguments: `(a.b) < c` needs its parentheses
+      if *op == "<" && ends_with_field_name(&ls) {
+        ls = format!("({ls})");
+      }
+      format!("{ls} {op} {}", text_at(r, rmin, rng))
     }
     G::Call(f, args) => {
       format!("{}({})", text_at(f, 8, rng), args.iter().map(|a| text_at(a, 0, rng)).collect::<Vec<_>>().join(", "))
